@@ -36,6 +36,9 @@ type C04Case struct {
 	Noise  bool            `json:"noise,omitempty"`
 	// Rotate: the storage rolls the response-signing key over after the noise round (or a first metadata fetch).
 	Rotate bool `json:"rotate_key,omitempty"`
+	// RotateTo: the key pair rolled over to ("" = sp-2048): also certificates minted for the response key with a validity window
+	// relative to now (about to expire, valid since a moment ago) - valid certificates all of them
+	RotateTo string `json:"rotate_to,omitempty"`
 	// ViaAPI: the response is obtained through the exported Provider.AuthCallbackResponse (applications with their own login
 	// UI), not through the callback endpoint
 	ViaAPI bool `json:"via_api,omitempty"`
@@ -168,6 +171,9 @@ func genC04Case(t *rapid.T) C04Case {
 	c.Spec = spec
 	c.Noise = rapid.IntRange(0, 2).Draw(t, "noise") == 0
 	c.Rotate = rapid.IntRange(0, 3).Draw(t, "rotate") == 0
+	if c.Rotate {
+		c.RotateTo = rapid.SampledFrom([]string{"", "", "idp-response@-3600:120", "idp-response@-20:86400", "sp-2048@-86400:240"}).Draw(t, "rotateto")
+	}
 	c.ViaAPI = (c.Kind == "post" || c.Kind == "redirect") && rapid.IntRange(0, 3).Draw(t, "viaapi") == 0
 	switch rapid.IntRange(0, 11).Draw(t, "big") {
 	case 0:
@@ -265,7 +271,11 @@ func c04Run(c C04Case, stats map[string]int) (vs []*ev.Violation, signedStrings 
 	}
 	if c.Rotate {
 		obs.Do(w.Handler, obs.HTTPReq{Method: "GET", Path: c.Spec.IdP.Route("metadata"), Host: c.Host})
-		w.Store.RotateResponseKey("sp-2048")
+		to := c.RotateTo
+		if to == "" {
+			to = "sp-2048"
+		}
+		w.Store.RotateResponseKey(to)
 	}
 	signedStrings = map[string][]string{}
 	add := func(v *ev.Violation) {
